@@ -322,7 +322,7 @@ func c07CheckContent(w *World, r *Report) {
 			if rp.Class != RetSuccess {
 				continue
 			}
-			if !g.DominatesInstr(c, posOf(rp.Ret)) {
+			if !g.DominatesInstr(c, retPos(rp)) {
 				okAll, why = false, "a success return is reachable without this comparison"
 			}
 		}
@@ -367,7 +367,7 @@ func c07CheckContent(w *World, r *Report) {
 					if bi, ok := c.Call.Value.(*ssa.Builtin); ok && bi.Name() == "len" {
 						for _, e := range condEdges(bo) {
 							if !e.truth {
-								if ex, _ := g.PathExists(entryPos(own), posOf(rp.Ret), Avoid{}.withEdges(e.Edge)); !ex {
+								if ex, _ := g.PathExists(entryPos(own), retPos(rp), Avoid{}.withEdges(e.Edge)); !ex {
 									guarded = true
 								}
 							}
